@@ -5,3 +5,4 @@ import TrucModel.Model.Definition
 import TrucModel.Model.Replay
 import TrucModel.Model.VecConvert
 import TrucModel.Model.Gen
+import TrucModel.Model.Machine
